@@ -28,6 +28,27 @@ def _fmt_number(rng, v, style):
         if float(digits) == 0:
             e = 0
         return "%s0.%sE%+03d" % (sign, digits, e)
+    if style == "odd":  # legal Fortran-style spellings: +1.5  .5  -.25  3.  1.5E+002  1.5D02
+        kind = rng.choice(["plus", "nolead", "traildot", "exp3", "expnosign", "plain"])
+        if kind == "plus":
+            tok = "%.6f" % abs(v)
+            return ("+" if v >= 0 else "-") + tok
+        if kind == "nolead" and 0 < abs(v) < 1:
+            tok = "%.8f" % abs(v)
+            tok = tok[1:]  # drop the leading zero
+            if float(tok) != 0.0:
+                return ("-" if v < 0 else "") + tok
+        if kind == "traildot" and abs(v) >= 1:
+            return ("-" if v < 0 else "") + "%d." % int(abs(v))
+        if kind in ("exp3", "expnosign"):
+            mant, ex = ("%.7E" % v).split("E")
+            e = int(ex)
+            letter = rng.choice(["E", "D"])
+            if kind == "exp3":
+                return "%s%s%+04d" % (mant, letter, e)
+            if e >= 0:
+                return "%s%s%02d" % (mant, letter, e)
+        return "%.7f" % v if abs(v) >= 1e-4 or v == 0 else "%.7E" % v
     nd = rng.choice([3, 6, 10])
     tok = "%.*E" % (nd, v)
     if style == "D":
@@ -44,7 +65,7 @@ def gen_spec(rng, fmt=None, max_elements=5, max_shells=8, max_l=7, max_prims=10,
     nel = rng.randint(1, max_elements)
     pool = SYMBOLS_1 + SYMBOLS_2
     syms = rng.sample(pool, nel)
-    style_mode = rng.choice(["mixed", "plain", "E", "D", "bse", "Dbse"])
+    style_mode = rng.choice(["mixed", "plain", "E", "D", "bse", "Dbse", "odd", "mixed"])
     elements = []
     for sym in syms:
         shells = []
@@ -59,6 +80,13 @@ def gen_spec(rng, fmt=None, max_elements=5, max_shells=8, max_l=7, max_prims=10,
                     ls, M = [min(max_l, _draw_l(rng))], rng.randint(1, max_cols) if rng.random() < 0.5 else 1
                 exps_v = sorted((_draw_exp(rng) for _ in range(K)), reverse=True)
                 ok = True
+                same_as_prev = None
+                if shells and rng.random() < 0.12:
+                    # the next shell re-uses the very exponent tokens of the previous one (as 6-31G-like sets
+                    # do for s and p); identical text, so the Gaussian94 merge rule is unambiguous
+                    same_as_prev = list(shells[-1]["exps"])
+                    K = len(same_as_prev)
+                    break
                 if fmt == "gbs" and shells:
                     prev = shells[-1]
                     if len(prev["exps"]) == K:
@@ -73,12 +101,14 @@ def gen_spec(rng, fmt=None, max_elements=5, max_shells=8, max_l=7, max_prims=10,
 
             def style():
                 if style_mode == "mixed":
-                    return rng.choice(["plain", "E", "D", "bse"])
+                    return rng.choice(["plain", "E", "D", "bse", "odd"])
                 if style_mode == "Dbse":
                     return "bse"
                 return style_mode
 
             exps_t = [_fmt_number(rng, v, style()) for v in exps_v]
+            if same_as_prev is not None:
+                exps_t = same_as_prev
             cols_t = []
             for _m in range(M):
                 col = []
@@ -90,7 +120,7 @@ def gen_spec(rng, fmt=None, max_elements=5, max_shells=8, max_l=7, max_prims=10,
                         c *= 1e-4
                     col.append(_fmt_number(rng, c, style()))
                 cols_t.append(col)
-            if style_mode == "Dbse":
+            if style_mode == "Dbse" and same_as_prev is None:
                 exps_t = [t.replace("E", "D") for t in exps_t]
                 cols_t = [[t.replace("E", "D") for t in col] for col in cols_t]
             shells.append({"l": ls, "exps": exps_t, "cols": cols_t})
